@@ -34,3 +34,41 @@ Section KahnP.
     - apply Hw in Huv. tauto.
   Qed.
 End KahnP.
+
+(* the general case: the acyclicity test fails on every graph with a directed cycle *)
+From Coq Require Import Relations.
+Section KahnCycle.
+  Context {A : Type} `{EqB A}.
+
+  Lemma kahn_stuck_set fuel : forall (remaining : list A) es acc (S : A -> Prop),
+    (exists x, S x) -> (forall x, S x -> In x remaining) -> (forall x, S x -> exists y, S y /\ In (y, x) es) ->
+    kahn fuel remaining es acc = None.
+  Proof.
+    induction fuel as [|f IH]; intros remaining es acc S [x0 Hx0] Hin Hpred; cbn [kahn].
+    - destruct remaining; [destruct (Hin x0 Hx0)|reflexivity].
+    - destruct (find _ remaining) as [w|] eqn:Ef; [|destruct remaining; [destruct (Hin x0 Hx0)|reflexivity]].
+      apply find_some in Ef. destruct Ef as [Hw Hno]. apply negb_true_iff in Hno.
+      assert (HwS : forall x, S x -> x <> w).
+      { intros x Hx ->. destruct (Hpred w Hx) as [y [_ Hy]].
+        assert (Ht : existsb (fun e : A * A => eqb (snd e) w) es = true) by (apply existsb_exists; exists (y, w); split; [exact Hy|apply eqb_refl]).
+        congruence. }
+      apply (IH _ _ _ S).
+      + exists x0. exact Hx0.
+      + intros x Hx. apply filter_In. split; [apply Hin; exact Hx|]. apply negb_true_iff. apply eqb_neq. apply HwS. exact Hx.
+      + intros x Hx. destruct (Hpred x Hx) as [y [Hy Hyx]]. exists y. split; [exact Hy|]. apply filter_In. split; [exact Hyx|].
+        apply negb_true_iff. apply eqb_neq. apply HwS. exact Hy.
+  Qed.
+
+  Theorem acyclic_no_cycle (g : mg A) : wf g -> is_acyclic g = true ->
+    forall v, ~ clos_trans A (fun x y => In (x, y) (dir g)) v v.
+  Proof.
+    intros [Hw _] Hac v Hc. unfold is_acyclic, topological_sort in Hac.
+    set (R := fun x y => In (x, y) (dir g)) in *.
+    rewrite (kahn_stuck_set (length (nodes g)) (nodes g) (dir g) [] (fun x => clos_trans A R v x /\ clos_trans A R x v)) in Hac; [discriminate| | |].
+    - exists v. split; exact Hc.
+    - intros x [Hvx _]. apply clos_trans_tn1 in Hvx. destruct Hvx as [x Hyx|y x Hyx _]; apply Hw in Hyx; tauto.
+    - intros x [Hvx Hxv]. apply clos_trans_tn1 in Hvx. destruct Hvx as [x Hyx|y x Hyx Hvy].
+      + exists v. split; [split; exact Hc|exact Hyx].
+      + exists y. split; [|exact Hyx]. apply clos_tn1_trans in Hvy. split; [exact Hvy|]. eapply t_trans; [apply t_step; exact Hyx|exact Hxv].
+  Qed.
+End KahnCycle.
